@@ -1,5 +1,75 @@
 import Sentinel.Drv.Common
-/-! Driver for C04 (stub: replaced by the property's real driver) -/
+import Sentinel.Model.Isolation
+/-! Driver for C04: `model` = `checkPass` (uint64 comparison, clamp) + gauge, `spec` = in-flight recomputed from the
+    handles, admission decided over `Nat`.
+
+    ops:  `load <res:threshold>*`
+          `entry <id> <res> <batch>`            => `pass` | `block iso <rule-index> <triggered-value>` | `dup`
+          `exit <id>`
+          `conc <res>`                          => gauge
+          `sched <id0> <res> <b0,b1,…> <i0,i1,…|->`  => `[r0,…] max=<g>`   (r = `-` idle, `p` in flight, `x` exited, `b<idx>:<tv>` blocked)
+          `par <id0> <k> <res> <batch>`         = `sched id0 res b,…,b 0,…,k-1,0,…,k-1` -/
 namespace Sentinel.Drv.C04
-def run (_mode : String) : IO Unit := IO.eprintln "C04: driver not implemented"
+open Sentinel.Iso Sentinel.Drv
+
+def u32? (s : String) : Option UInt32 :=
+  match s.toNat? with
+  | some n => if n < 4294967296 then some (UInt32.ofNat n) else none
+  | none => none
+
+def rule? (s : String) : Option (String × UInt32) :=
+  match s.splitOn ":" with
+  | [r, t] => if r = "" then none else (u32? t).map fun t => (r, t)
+  | _ => none
+
+def list? {α} (f : String → Option α) (s : String) : Option (List α) :=
+  if s = "-" then some [] else (s.splitOn ",").mapM f
+
+def parse : List String → Option Op
+  | "load" :: rs => (rs.mapM rule?).map .load
+  | ["entry", id, res, b] => do some (.entry (← id.toNat?) res (← u32? b))
+  | ["exit", id] => do some (.exit (← id.toNat?))
+  | ["conc", res] => some (.conc res)
+  | ["sched", id0, res, bs, s] => do
+      let bs ← list? u32? bs
+      let s ← list? String.toNat? s
+      if bs.length = 0 ∨ bs.length > 64 then none else some (.sched (← id0.toNat?) res bs s)
+  | ["par", id0, k, res, b] => do
+      let k ← k.toNat?
+      if k = 0 ∨ k > 64 then none else
+      some (.sched (← id0.toNat?) res (List.replicate k (← u32? b)) (List.range k ++ List.range k))
+  | _ => none
+
+def showPc : Pc → String
+  | .idle => "-"
+  | .checked => "c"
+  | .blockedPending _ _ => "q"
+  | .inflight => "p"
+  | .rejected idx tv => s!"b{idx}:{tv.toNat}"
+  | .done => "x"
+
+def showOut : Out → Option String
+  | .none => none
+  | .pass => some "pass"
+  | .block idx tv => some s!"block iso {idx} {tv.toNat}"
+  | .dup => some "dup"
+  | .val g => some (toString g)
+  | .sched th mx => some (showList (th.map showPc) ++ s!" max={mx}")
+
+def stepModel (s : St) (ts : List String) (_ : String) : St × Option String :=
+  match parse ts with
+  | some op => let (s', o) := step s op; (s', showOut o)
+  | none => (s, some "bad-op")
+
+def stepSpec (s : SpecSt) (ts : List String) (_ : String) : SpecSt × Option String :=
+  match parse ts with
+  | some op => let (s', o) := specStep s op; (s', showOut o)
+  | none => (s, some "bad-op")
+
+def run (mode : String) : IO Unit :=
+  match mode with
+  | "model" => loop ({} : St) stepModel
+  | "spec" => loop ({} : SpecSt) stepSpec
+  | _ => IO.eprintln "C04: modes are model | spec"
+
 end Sentinel.Drv.C04
